@@ -67,6 +67,29 @@ def gen_type(rng, depth):
     return ("ST", fs)
 
 
+def embed_chains(rng, n=24):
+    """structs whose fields are promoted through 3..5 levels of anonymous embedding (by value or through a pointer), with
+    2..3 fields of their own at every level: field index paths of length 4..6"""
+    out = []
+    for j in range(n):
+        levels = rng.choice([3, 3, 4, 5])
+        t = None
+        for lv in range(levels, -1, -1):
+            fs = []
+            nown = rng.choice([2, 2, 3])
+            names = [bytes([65 + lv]) + bytes([97 + i]) + b"%d" % j for i in range(nown)]
+            own = [(nm, True, False, rng.choice([b"", b"", b"t%d%d" % (lv, i)]), rng.choice(SCALAR_TYPES)) for i, nm in enumerate(names)]
+            if t is not None:
+                emb = (b"E%d" % lv, True, True, b"", ("P", t) if rng.random() < 0.3 else t)
+                pos = rng.randint(0, len(own))
+                fs = own[:pos] + [emb] + own[pos:]
+            else:
+                fs = own
+            t = ("ST", fs)
+        out.append(t)
+    return out
+
+
 def usable_types(types):
     """drop the types the Go side cannot build (reflect.StructOf restrictions)"""
     outs = vlib.run_go(["typeok " + " ".join(ty_tokens(t)) for t in types])
